@@ -232,7 +232,7 @@ Lemma status_finish c q R : RStatusCode (r_hd (fst (srv_finish c q R))) = RStatu
 Proof.
   unfold srv_finish. cbv zeta. cbn [fst r_hd with_hd].
   destruct (q_head q); cbn [r_hd with_skip];
-  destruct (q_close q || c_disableKA c || hclose (rh (r_hd R))); destruct (negb (q_http11 q)); destruct (c_name c);
+  destruct (q_close q || c_disableKA c || _ || hclose (rh (r_hd R))); destruct (negb (q_http11 q)); destruct (c_name c);
   try reflexivity; match goal with |- context [match rserver ?x with _ => _ end] => destruct (rserver x) end; reflexivity.
 Qed.
 
